@@ -195,6 +195,7 @@ pub fn warm_all(input: &[u8]) {
 pub fn v1_seq_pool() -> Vec<Vec<u8>> {
     let mut p: Vec<Vec<u8>> = [
         "PROXY TCP4 1.2.3.4 5.6.7.8 80 443\r\n",
+        "PROXY TCP4 1.2.3.4 5.6.7.8 80 44\r\n",
         "PROXY TCP4 9.9.9.9 8.8.8.8 1 2\r\nGET / HTTP/1.1\r\n\r\n",
         "PROXY TCP6 1:2:3:4:5:6:7:8 ::1 65535 0\r\n",
         "PROXY TCP6 ::1 ::1a 1 2\r\n",
